@@ -8,6 +8,9 @@ for d in sorted(Path("/verif/seeded").iterdir()):
     if not d.is_dir():
         continue
     m = json.loads((d / "meta.json").read_text())
+    if m.get("obsolete"):
+        print(f"| {d.name} | {m.get('property')} | {m.get('needs','')[:110]} | obsolete: {m['obsolete'][:140]} | (last result before: reported, no-failing-input-found) |")
+        continue
     r = json.loads((d / "result.json").read_text()) if (d / "result.json").exists() else {}
     caught = r.get("caught_by", [])
     wi = r.get("caught_with_failing_input_by", [])
